@@ -223,6 +223,10 @@ def analyse(script, rc, out, err):
                     fin = "iterator-ref-race"
                 elif "rfbShutdownServer" in a["access"][:3]:
                     fin = "iterator-ref-race"
+                elif acc & {"rfbMarkRegionAsModified", "rfbScheduleCopyRegion", "rfbSendBell", "rfbSendServerCutText",
+                            "rfbSendServerCutTextUTF8", "rfbNewFramebuffer", "rfbNewTCPOrUDPClient"} and "clientInput" in a["freed"]:
+                    # the body of a client loop working on a client the iterator handed out after it was freed
+                    fin = "iterator-ref-race"
                 elif "rfbScreenCleanup" in a["access"][:3] and listen:
                     fin = "shutdown-accept-race"
         add("sanitizer: %s in %s (freed in %s)" % (a["kind"], "<".join(a["access"][:4]), "<".join(a["freed"][:2])), fin, err[-2500:])
@@ -248,6 +252,9 @@ def analyse(script, rc, out, err):
                     own = ti.get(v["owner"], {})
                     if own.get("at") != "mutex_unlock" or True:
                         fin = fin or "writeexact-lock-leak"
+            if fin is None and any(v.get("state") == "join" and v.get("target", "").startswith("O")
+                                   and ti.get(v.get("target"), {}).get("state") == "cond" for k, v in ti.items() if k.startswith("I")):
+                fin = "shutdown-request-lost"
             if fin is None and "A" in blocked and blocked["A"].get("state") == "join":
                 tg = blocked["A"].get("target", "")
                 tv = ti.get(tg, {})
@@ -263,6 +270,10 @@ def analyse(script, rc, out, err):
             elif "unlock-by-non-owner S" in what: fin = "newfb-membership-race"
             elif ("destroy-locked-mutex" in what or "unlock-by-non-owner U" in what) and ti.get("A", {}).get("at") in ("mutex_unlock", "write"):
                 fin = "iterator-ref-race"
+            elif "destroy-cond-with-waiters" in what and any(v.get("state") == "join" and v.get("target", "").startswith("O")
+                                                              and ti.get(v.get("target"), {}).get("state") == "cond" for v in ti.values()):
+                # an output thread that was never woken is still waiting when the record is torn down
+                fin = "shutdown-request-lost"
             elif "lock-of-destroyed-mutex" in what or "destroy-locked-mutex" in what:
                 # a sync object of a client that rfbClientConnectionGone has already torn down
                 fin = "iterator-ref-race"
@@ -326,12 +337,18 @@ def analyse(script, rc, out, err):
             kv = dict(x.split("=") for x in t[1:])
             n = int(kv["n"]); grow = int(kv["unjoined_after"]) - int(kv["unjoined_before"])
             st["cycle"] = kv
+            stuck = int(kv["alive_after"]) - int(kv["alive_before"])
+            # threads of a cycle whose output thread missed its wake-up are still alive (input thread in
+            # pthread_join, output thread in the condition wait)
+            lostwake = [k for k, v in ti.items() if k.startswith("I") and v.get("state") == "join"
+                        and ti.get(v.get("target", ""), {}).get("state") == "cond"]
             if grow > 0:
                 add("%d connect-disconnect cycles left %d unjoined threads (maps %s -> %s, VmSize %s -> %s kB)" % (
                     n, grow, kv["maps_before"], kv["maps_after"], kv["vmsize_kb_before"], kv["vmsize_kb_after"]),
-                    "client-thread-unjoined" if grow == n else None, None)
-            if int(kv["alive_after"]) > int(kv["alive_before"]):
-                add("live library threads grew over %d cycles: %s -> %s" % (n, kv["alive_before"], kv["alive_after"]), None, None)
+                    "client-thread-unjoined" if grow + len(lostwake) == n and 2 * len(lostwake) == max(stuck, 0) else None, None)
+            if stuck > 0:
+                add("live library threads grew over %d cycles: %s -> %s" % (n, kv["alive_before"], kv["alive_after"]),
+                    "shutdown-request-lost" if lostwake and 2 * len(lostwake) == stuck else None, "\n".join(threads))
     if not ended and not probs:
         add("harness produced no end marker", None, err[-1500:])
     # lock leak signatures visible in the trace even when the run ended otherwise well
@@ -401,8 +418,7 @@ def run(ctx):
             fails.append({"kind": "oracle", "what": "C13 %s [%s]" % (p["what"], name), "finding": p["finding"],
                           "detail": p["detail"], "script": sc.splitlines(), "impl": [l for l in out.splitlines() if l.startswith("res ")][:40],
                           "trace_tail": evs[-60:]})
-        clean = not any(p["finding"] is None for p in probs)
-        if ctx.driver_ok and evs and (not probs):
+        if ctx.driver_ok and evs and (not probs) and "# noinclusion" not in sc:
             incl_jobs.append((name, sc, evs))
     # trace inclusion (only traces of runs without a failure: a failing run is already reported)
     if ctx.driver_ok:
@@ -418,7 +434,9 @@ def run(ctx):
     return {
         "evaluations": len(scripts), "distinct_nontrivial": len(seen),
         "rule": "one evaluation = one seeded schedule of one scenario on the real threaded server; non-trivial = distinct scenario with >=2 clients, at least one condition wait and >150 synchronisation events",
-        "samples": samples, "distribution": dist, "failures": (real + [f for f in fails if f.get("finding")])[:60],
+        "samples": samples, "distribution": dist,
+        "failures": ([f for f in real if f["kind"] != "exact"][:20] + [f for f in fails if f.get("finding")][:40] +
+                     [f for f in real if f["kind"] == "exact"][:3]),
         "partial": PARTIAL, "assumptions": ASSUMPTIONS,
         "trusted_extra": ["deterministic scheduler in harness/c13.c (interposition of pthread_*/select/usleep/read/write): schedules are sampled, not enumerated",
                           "pthread mutex/condvar semantics as modelled (no spurious wake-ups injected)"],
